@@ -189,7 +189,12 @@ fn free_port() -> Option<u16> {
 }
 
 fn id_of(port: u16) -> u64 {
-    usize::from(Id::from(SocketAddrV4::new(Ipv4Addr::LOCALHOST, port))) as u64
+    id_at(1, port)
+}
+
+/// The id of 127.0.0.<host>:<port> (all of 127/8 is local on Linux).
+fn id_at(host: u8, port: u16) -> u64 {
+    usize::from(Id::from(SocketAddrV4::new(Ipv4Addr::new(127, 0, 0, host), port))) as u64
 }
 
 /// `svmon --worker udp <seed>`: runs one scenario and prints the event log as one JSON line.
@@ -216,6 +221,15 @@ pub fn udp_worker(args: &[String]) -> i32 {
             }
         }
     }
+    // Actor addresses: mostly 127.0.0.1, in a third of the scenarios other loopback addresses too -
+    // an actor lives at the address its Id encodes, not merely at its port. Two actors may then share
+    // a port number.
+    let spread = rng.pct(35);
+    let hosts: Vec<u8> = (0..n_actors).map(|_| if spread && rng.pct(70) { rng.range(2, 5) as u8 } else { 1 }).collect();
+    if spread && n_actors >= 2 && hosts[0] != hosts[1] && rng.pct(50) {
+        ports[1] = ports[0];
+    }
+    let aid = |i: usize| id_at(hosts[i], ports[i]);
     // driver sockets
     let n_driver = rng.range(1, 2);
     let mut driver_socks = Vec::new();
@@ -261,7 +275,7 @@ pub fn udp_worker(args: &[String]) -> i32 {
             }
             on_fire.insert(t, cmds);
         }
-        actors.push((Id::from(SocketAddrV4::new(Ipv4Addr::LOCALHOST, *p)), ScriptActor { index: i, start, on_fire }));
+        actors.push((Id::from(SocketAddrV4::new(Ipv4Addr::new(127, 0, 0, hosts[i]), *p)), ScriptActor { index: i, start, on_fire }));
     }
     std::thread::spawn(move || {
         let r = spawn(ser, de, actors);
@@ -274,17 +288,29 @@ pub fn udp_worker(args: &[String]) -> i32 {
         let sock_i = rng.below(driver_socks.len());
         let sock = &driver_socks[sock_i];
         let to = rng.below(n_actors);
-        let to_addr = SocketAddrV4::new(Ipv4Addr::LOCALHOST, ports[to]);
-        match rng.below(10) {
+        let to_addr = SocketAddrV4::new(Ipv4Addr::new(127, 0, 0, hosts[to]), ports[to]);
+        match rng.below(11) {
             0 => {
-                // garbage / undeserialisable / oversized
-                let bytes: Vec<u8> = match rng.below(3) {
+                // garbage / undeserialisable / oversized / empty
+                let bytes: Vec<u8> = match rng.below(4) {
                     0 => b"\xff\xfe not utf8".to_vec(),
                     1 => format!("{}/12:Zzz", run).into_bytes(), // right run id, malformed body
+                    2 => Vec::new(),
                     _ => vec![b'9'; 40_000],
                 };
                 log(json!({"t": now_us(), "who": "driver", "ev": "send-garbage", "from_port": driver_ports[sock_i], "to_actor": to, "len": bytes.len()}));
                 let _ = sock.send_to(&bytes, to_addr);
+            }
+            10 if spread => {
+                // a well-formed datagram for the actor's port at a loopback address where no
+                // actor of this run lives: nobody may be handed it
+                let mut host = rng.range(2, 6) as u8;
+                while (0..n_actors).any(|i| hosts[i] == host && ports[i] == ports[to]) {
+                    host += 1;
+                }
+                let m = UMsg { tag: tag(), cmds: vec![UCmd::Send(id_of(*rng.pick(&driver_ports)), tag())] };
+                log(json!({"t": now_us(), "who": "driver", "ev": "send-astray", "from_port": driver_ports[sock_i], "to_host": host, "to_port": ports[to], "tag": m.tag}));
+                let _ = sock.send_to(&ser(&m).unwrap(), SocketAddrV4::new(Ipv4Addr::new(127, 0, 0, host), ports[to]));
             }
             _ => {
                 let mut cmds = Vec::new();
@@ -310,7 +336,7 @@ pub fn udp_worker(args: &[String]) -> i32 {
                             }
                         }
                         2 => UCmd::CancelTimer(rng.below(3) as u8),
-                        3 => UCmd::Send(id_of(ports[rng.below(n_actors)]), tag()), // actor to actor
+                        3 => UCmd::Send(aid(rng.below(n_actors)), tag()), // actor to actor
                         _ => UCmd::Send(id_of(*rng.pick(&driver_ports)), tag()),
                     };
                     cmds.extend(extra);
@@ -355,7 +381,7 @@ pub fn udp_worker(args: &[String]) -> i32 {
     }
     log(json!({"t": now_us(), "who": "driver", "ev": "end-of-observation"}));
     let events = LOG.get().unwrap().lock().unwrap().clone();
-    println!("{}", json!({"actor_ports": ports, "driver_ports": driver_ports, "salt": salt, "run": run, "events": events}));
+    println!("{}", json!({"actor_ports": ports, "actor_hosts": hosts, "driver_ports": driver_ports, "salt": salt, "run": run, "events": events}));
     0
 }
 
@@ -364,7 +390,11 @@ fn drain(socks: &[UdpSocket], ports: &[u16]) {
     for (i, s) in socks.iter().enumerate() {
         while let Ok((n, from)) = s.recv_from(&mut buf) {
             let payload = String::from_utf8_lossy(&buf[..n]).to_string();
-            log(json!({"t": now_us(), "who": "driver", "ev": "recv", "at_port": ports[i], "from_port": from.port(), "payload": payload}));
+            let from_host = match from.ip() {
+                std::net::IpAddr::V4(a) if a.octets()[..3] == [127, 0, 0] => a.octets()[3] as u64,
+                _ => 0,
+            };
+            log(json!({"t": now_us(), "who": "driver", "ev": "recv", "at_port": ports[i], "from_port": from.port(), "from_host": from_host, "payload": payload}));
         }
     }
 }
@@ -376,7 +406,15 @@ pub fn check_log(v: &Value) -> Result<BTreeMap<&'static str, u64>, (String, Valu
     let events = v["events"].as_array().cloned().unwrap_or_default();
     let actor_ports: Vec<u64> = v["actor_ports"].as_array().unwrap().iter().map(|p| p.as_u64().unwrap()).collect();
     let driver_ports: Vec<u64> = v["driver_ports"].as_array().unwrap().iter().map(|p| p.as_u64().unwrap()).collect();
-    let id_to_actor: BTreeMap<u64, usize> = actor_ports.iter().enumerate().map(|(i, p)| (id_of(*p as u16), i)).collect();
+    let actor_hosts: Vec<u64> = match v["actor_hosts"].as_array() {
+        Some(a) => a.iter().map(|p| p.as_u64().unwrap()).collect(),
+        None => vec![1; actor_ports.len()],
+    };
+    let actor_ids: Vec<u64> = (0..actor_ports.len()).map(|i| id_at(actor_hosts[i] as u8, actor_ports[i] as u16)).collect();
+    let id_to_actor: BTreeMap<u64, usize> = actor_ids.iter().enumerate().map(|(i, id)| (*id, i)).collect();
+    let astray_tags: BTreeSet<u64> = events.iter().filter(|e| e["ev"] == "send-astray").filter_map(|e| e["tag"].as_u64()).collect();
+    stats.insert("datagrams_sent_to_a_loopback_address_without_an_actor", astray_tags.len() as u64);
+    stats.insert("actors_at_other_loopback_addresses_than_127.0.0.1", actor_hosts.iter().filter(|h| **h != 1).count() as u64);
     let driver_ids: BTreeSet<u64> = driver_ports.iter().map(|p| id_of(*p as u16)).collect();
     let fail = |what: &str, detail: Value| Err((what.to_string(), detail));
     // tags carry a per-process salt: a datagram with another salt strayed in from a scenario
@@ -402,7 +440,7 @@ pub fn check_log(v: &Value) -> Result<BTreeMap<&'static str, u64>, (String, Valu
                         continue; // cannot be serialised: nothing may (and nothing can) arrive
                     }
                     if let Some(a) = id_to_actor.get(&d) {
-                        sent_to_actor.insert(tag, (id_of(actor_ports[me] as u16), *a));
+                        sent_to_actor.insert(tag, (actor_ids[me], *a));
                     } else if driver_ids.contains(&d) {
                         sent_to_driver.entry(tag).or_insert((me, d, 0)).2 += 1;
                     }
@@ -427,7 +465,7 @@ pub fn check_log(v: &Value) -> Result<BTreeMap<&'static str, u64>, (String, Valu
             if started.contains_key(&me) {
                 return fail("on_start-ran-twice", e.clone());
             }
-            if e["id"].as_u64() != Some(id_of(actor_ports[me] as u16)) {
+            if e["id"].as_u64() != Some(actor_ids[me]) {
                 return fail("on_start-got-wrong-id", e.clone());
             }
             started.insert(me, t);
@@ -452,6 +490,7 @@ pub fn check_log(v: &Value) -> Result<BTreeMap<&'static str, u64>, (String, Valu
                     *stats.entry("foreign_datagrams_ignored").or_default() += 1;
                 } else {
                 match sent_to_actor.get(&tag) {
+                    None if astray_tags.contains(&tag) => return fail("on_msg-for-a-datagram-sent-to-another-ip-address-than-the-actor's", e.clone()),
                     None => return fail("on_msg-for-a-datagram-nobody-sent", e.clone()),
                     Some((from_id, to)) => {
                         if *to != me {
@@ -529,7 +568,7 @@ pub fn check_log(v: &Value) -> Result<BTreeMap<&'static str, u64>, (String, Valu
                         "actor_ports": actor_ports, "driver_ports": driver_ports, "all_events": events}));
                 }
                 Some((actor, driver_id, _)) => {
-                    if e["from_port"].as_u64() != Some(actor_ports[*actor]) {
+                    if e["from_port"].as_u64() != Some(actor_ports[*actor]) || e["from_host"].as_u64().unwrap_or(actor_hosts[*actor]) != actor_hosts[*actor] {
                         return fail("datagram-came-from-another-socket-than-the-sending-actor", e.clone());
                     }
                     if id_of(e["at_port"].as_u64().unwrap() as u16) != *driver_id {
